@@ -943,7 +943,7 @@ func checkC05GoSizes(c *Check, L *Loaded, r *Rule) {
 			if !isCall || len(call.Args) != 2 {
 				return
 			}
-			if fn := Callee(info, call); fn == nil || fn.Name() != "loadStructField" {
+			if fn := Callee(info, call); fn == nil || !nameIs(fn, "loadStructField") {
 				return
 			}
 			return types.ExprString(call.Args[0]), types.ExprString(call.Args[1]), true
@@ -955,7 +955,7 @@ func checkC05GoSizes(c *Check, L *Loaded, r *Rule) {
 				return true
 			}
 			fn := Callee(info, call)
-			if fn == nil || (fn.Name() != "freeArr" && fn.Name() != "growArr") || fn.Pkg() != cp.Types {
+			if fn == nil || (!nameIs(fn, "freeArr") && !nameIs(fn, "growArr")) || fn.Pkg() != cp.Types {
 				return true
 			}
 			n++
